@@ -185,9 +185,28 @@ func allObjs(fds []pbfrun.FrameDesc) []uint64 {
 	return l
 }
 
+// byFilter: the element kinds of a case's flag set are removed by Filter* functions that reject
+// every element instead of by the Skip* flags (the blocks are emptied either way, and the offsets
+// must move over them all the same)
+var byFilter bool
+
+func jobSkip(skip [3]bool) [3]bool {
+	if byFilter {
+		return [3]bool{}
+	}
+	return skip
+}
+
+func jobFilter(skip [3]bool) [3]bool {
+	if byFilter {
+		return skip
+	}
+	return [3]bool{}
+}
+
 func traceCase(w *wire.Writer, r *pbfrun.Runner, f *file, procs int, skip [3]bool) (*wire.Case, error) {
 	fds := pbfrun.Describe(f.desc, f.data, f.frames, skip, nil)
-	obs, err := r.Run(pbfrun.Job{Data: f.data, Procs: procs, Skip: skip, Mode: "trace", Canon: true})
+	obs, err := r.Run(pbfrun.Job{Data: f.data, Procs: procs, Skip: jobSkip(skip), Filter: jobFilter(skip), Mode: "trace", Canon: true})
 	if err != nil {
 		return nil, err
 	}
@@ -253,7 +272,7 @@ func traceCase(w *wire.Writer, r *pbfrun.Runner, f *file, procs int, skip [3]boo
 			}
 		}
 	}
-	c.Desc = map[string]interface{}{"kind": "trace", "file_seed": f.seed, "procs": procs, "skip": skip, "frames": fds,
+	c.Desc = map[string]interface{}{"kind": "trace", "file_seed": f.seed, "procs": procs, "skip": skip, "by_filter": byFilter, "frames": fds,
 		"objs": o.Objs, "decoded_objects": o.Canon, "expected_objects": expected, "fsb": o.FSB, "pfsb": o.PFSB, "err": o.ErrText, "file": f.desc}
 	c.Trivial = len(o.Objs) == 0
 	return c, nil
@@ -279,7 +298,7 @@ func stopsCase(w *wire.Writer, r *pbfrun.Runner, f *file, procs int, skip [3]boo
 	for i := range units {
 		units[i] = i
 	}
-	obs, err := r.Run(pbfrun.Job{Data: f.data, Procs: procs, Skip: skip, Mode: "stop", Units: units})
+	obs, err := r.Run(pbfrun.Job{Data: f.data, Procs: procs, Skip: jobSkip(skip), Filter: jobFilter(skip), Mode: "stop", Units: units})
 	if err != nil {
 		return nil, err
 	}
@@ -338,7 +357,7 @@ func stopsCase(w *wire.Writer, r *pbfrun.Runner, f *file, procs int, skip [3]boo
 		c.Int(int64(s.PErr))
 		c.Bool(s.Short)
 	}
-	c.Desc = map[string]interface{}{"kind": "stop at every k and resume", "file_seed": f.seed, "procs": procs, "skip": skip,
+	c.Desc = map[string]interface{}{"kind": "stop at every k and resume", "file_seed": f.seed, "procs": procs, "skip": skip, "by_filter": byFilter,
 		"size": len(f.data), "n_objects": len(all), "frames": fds, "runs": runs, "file": f.desc}
 	c.Trivial = len(all) == 0
 	w.Stats["stops:positions"] += len(units)
@@ -392,6 +411,7 @@ func main() {
 		sel := []int{0, 1 + rng.Intn(7), 1 + rng.Intn(7)}
 		for si, s := range sel {
 			skip := skips[s]
+			byFilter = si == 2
 			for _, p := range procsList {
 				if si > 0 && p != procsList[(i+si)%3] {
 					continue // every decoder count with no flags; one (rotating) count per drawn flag set
@@ -413,9 +433,14 @@ func main() {
 					firstStops = c
 				}
 				w.Count(fmt.Sprintf("procs=%d", p))
-				w.Count(fmt.Sprintf("skip=%v", skip))
+				if byFilter {
+					w.Count(fmt.Sprintf("filter=%v", skip))
+				} else {
+					w.Count(fmt.Sprintf("skip=%v", skip))
+				}
 			}
 		}
+		byFilter = false
 		// the same reader object reused for the restart (a few files: reads are slowed down)
 		if i%5 == 0 && len(f.desc.Blocks) >= 3 {
 			c, err := sharedCase(w, r, f, procsList[(i/5)%3])
